@@ -1025,7 +1025,10 @@ def generate(unit_name):
                         # lastexpr=1: `last` starts the tail expression of its block; the fragment ends where that block closes
                         if depth < 0 and opts.get('lastexpr') == '1': e0 = y[2]; break
                         # lastblock=1: `last` starts a block statement (for/while/if); the fragment ends with its closing brace
-                        if depth == 0 and y[1] == '}' and opts.get('lastblock') == '1': e0 = y[3]; break
+                        if depth == 0 and y[1] == '}' and opts.get('lastblock') == '1':
+                            # an if-statement extends over its `else` chain
+                            if pp + 1 < len(ci) and toks[ci[pp + 1]][1] == 'else': pp += 1; continue
+                            e0 = y[3]; break
                     elif y[1] == ';' and depth == 0 and opts.get('lastblock') != '1': e0 = y[3]; break
                 pp += 1
             if e0 is None or e0 <= s0: raise GenErr('%s: fragment end not found' % name)
